@@ -104,6 +104,9 @@ func (P *Program) leaf(v ssa.Value) *formula {
 //	A: if c goto J else B ; B (dominated by A's false successor): w ; J: phi[A: true|c, B: w]  ==>  c || w
 //	A: if c goto B else J ; B (dominated by A's true successor):  w ; J: phi[A: false|c, B: w] ==>  c && w
 func (P *Program) phiFormula(phi *ssa.Phi, depth int) *formula {
+	if len(phi.Edges) > 2 {
+		return P.phiChainFormula(phi, depth)
+	}
 	if len(phi.Edges) != 2 {
 		return nil
 	}
@@ -640,4 +643,90 @@ func (P *Program) BlockCutBy(b *ssa.BasicBlock, pred func(Lit) bool) bool {
 		}
 	}
 	return true
+}
+
+// GuardPaths enumerates the static call paths from a root (walk callback, function without product callers)
+// to instruction ins and returns, for each, the literals that hold along it (union of block guards).
+func (P *Program) GuardPaths(ins ssa.Instruction) [][]Lit {
+	var out [][]Lit
+	var walk func(fn *ssa.Function, acc litSet, onPath map[*ssa.Function]bool)
+	walk = func(fn *ssa.Function, acc litSet, onPath map[*ssa.Function]bool) {
+		if len(out) >= 64 || onPath[fn] {
+			return
+		}
+		onPath[fn] = true
+		defer delete(onPath, fn)
+		if fn.Parent() != nil {
+			if mc := P.closureSite(fn); mc != nil {
+				a2 := acc.union(newLitSet(P.BlockGuards(mc.Block())))
+				walk(fn.Parent(), a2, onPath)
+				return
+			}
+		}
+		callers := P.Callers(fn)
+		if len(callers) == 0 {
+			out = append(out, acc.list())
+			return
+		}
+		for _, c := range callers {
+			a2 := acc.union(newLitSet(P.BlockGuards(c.Block())))
+			walk(c.Parent(), a2, onPath)
+		}
+	}
+	walk(ins.Parent(), newLitSet(P.BlockGuards(ins.Block())), map[*ssa.Function]bool{})
+	return out
+}
+
+// phiChainFormula: value of `c0 && c1 && ... && w` (or the || form) lowered to an n-edge phi:
+// all edges but one carry the same boolean constant k and come straight from the If block of c_i on the
+// branch that decides the result; the remaining edge carries w.
+func (P *Program) phiChainFormula(phi *ssa.Phi, depth int) *formula {
+	J := phi.Block()
+	wIdx := -1
+	var k, kSet bool
+	for i, e := range phi.Edges {
+		cv, isC := constBool(e)
+		if !isC {
+			if wIdx >= 0 {
+				return nil
+			}
+			wIdx = i
+			continue
+		}
+		if kSet && cv != k {
+			return nil
+		}
+		k, kSet = cv, true
+	}
+	if wIdx < 0 || !kSet {
+		return nil
+	}
+	var subs []*formula
+	B := J.Preds[wIdx]
+	for i := range phi.Edges {
+		if i == wIdx {
+			continue
+		}
+		A := J.Preds[i]
+		ifi, ok := lastInstr(A).(*ssa.If)
+		if !ok || A.Succs[0] == A.Succs[1] {
+			return nil
+		}
+		// edge A->J must be the branch on which c_i has value k
+		if k && A.Succs[0] != J {
+			return nil
+		}
+		if !k && A.Succs[1] != J {
+			return nil
+		}
+		if !dominates(A, B) {
+			return nil
+		}
+		subs = append(subs, P.condFormula(ifi.Cond, depth+1))
+	}
+	subs = append(subs, P.condFormula(phi.Edges[wIdx], depth+1))
+	if k {
+		return &formula{op: "or", sub: subs}
+	}
+	return &formula{op: "and", sub: subs}
 }
